@@ -439,6 +439,62 @@ func drawRDF(t *rapid.T) rdfCase {
 	return c
 }
 
+// drawRegular draws the datasets that are hard for the canonicalization
+// algorithms: 6..9 blank nodes joined by one predicate into a digraph in which
+// (nearly) every node has the same in- and out-degree (a circulant, or the union
+// of two or three random permutations), so that the first-degree hashes separate
+// nothing and the n-degree hashing has to recurse through cloned identifier
+// issuers over several permutations. No edit is drawn: the exhaustive
+// isomorphism oracle is factorial in the number of blank nodes and is kept for
+// the small class above; here the oracle is relabel/reorder invariance.
+func drawRegular(t *rapid.T) rdfCase {
+	var c rdfCase
+	n := rapid.IntRange(6, 9).Draw(t, "n")
+	p := tref{1, 0}
+	deg := rapid.IntRange(2, 3).Draw(t, "deg")
+	if rapid.IntRange(0, 3).Draw(t, "circulant") == 0 {
+		for d := 0; d < deg; d++ {
+			step := rapid.IntRange(1, n-1).Draw(t, "step")
+			for i := 0; i < n; i++ {
+				c.Quads = append(c.Quads, quad{tref{0, i}, p, tref{0, (i + step) % n}, tref{3, 0}})
+			}
+		}
+	} else {
+		base := make([]int, n)
+		for i := range base {
+			base[i] = i
+		}
+		for d := 0; d < deg; d++ {
+			pi := rapid.Permutation(base).Draw(t, "pi")
+			for i := 0; i < n; i++ {
+				c.Quads = append(c.Quads, quad{tref{0, i}, p, tref{0, pi[i]}, tref{3, 0}})
+			}
+		}
+	}
+	// now and then one distinguishing statement
+	if rapid.IntRange(0, 4).Draw(t, "mark") == 0 {
+		c.Quads = append(c.Quads, quad{tref{0, rapid.IntRange(0, n-1).Draw(t, "m")}, tref{1, 1}, tref{1, 2}, tref{3, 0}})
+	}
+	c.Quads = dedupQuads(c.Quads)
+	base := make([]int, n)
+	for i := range base {
+		base[i] = i
+	}
+	c.Relabel = rapid.Permutation(base).Draw(t, "relabel")
+	idx := make([]int, len(c.Quads))
+	for i := range idx {
+		idx[i] = i
+	}
+	c.Order = rapid.Permutation(idx).Draw(t, "order")
+	c.Hash = rapid.IntRange(0, 2).Draw(t, "hash")
+	c.Decomp = rapid.Bool().Draw(t, "decomp")
+	return c
+}
+
+func TestRDFCanonicalizationRegular(t *testing.T) {
+	vk.Run(t, "rdf-c14n-regular", vk.Opts{Quick: 4000, Thorough: 60000}, drawRegular, checkRDF)
+}
+
 func TestRDFCanonicalization(t *testing.T) {
 	vk.Run(t, "rdf-c14n", vk.Opts{Quick: 10000, Thorough: 200000}, drawRDF, checkRDF)
 }
